@@ -167,7 +167,9 @@ func (mediaType *MediaType) Validate(ctx context.Context, opts ...ValidationOpti
 		}
 		sort.Strings(names)
 		for _, k := range names {
-			if err := encodings[k].Validate(ctx); err != nil {
+			// the headers of an encoding may refer back to a header that contains this media type:
+			// only the encoding's own fields are checked here
+			if err := encodings[k].validateOwnFields(ctx); err != nil {
 				return fmt.Errorf("invalid encoding %q: %w", k, err)
 			}
 		}
